@@ -63,9 +63,9 @@ def make_items(seed, tier):
     with open(os.path.join(build.REPO, "examples", "mygrep.usage"), "rb") as f:
         add("example:mygrep+dots", proc.enc(f.read()), rng.sub("ex/dots"), shell="bash", dots="both", dest_mode="existing")
 
-    n_valid = 14 if quick else 160
-    n_mistake = len(gram.MISTAKE_KINDS) if quick else 8 * len(gram.MISTAKE_KINDS)
-    n_warn = 6 if quick else 60
+    n_valid = 14 if quick else 100
+    n_mistake = len(gram.MISTAKE_KINDS) if quick else 4 * len(gram.MISTAKE_KINDS)
+    n_warn = 6 if quick else 40
     n_mut = 150 if quick else 2500
     n_soup = 30 if quick else 400
 
